@@ -555,6 +555,23 @@ func catalogue() []*deviant {
 			}
 		}
 	}
+	// the error paths of ONE operation carry an inner-namespace prefix (what a mount or sub layer does when it forgets to
+	// translate back); the all-operations variant below is also caught by the strict check of Stat's error alone
+	for _, only := range []string{"open", "mkdir", "mkdirall", "remove", "rename", "chtimes"} { // (no scenario makes Chmod fail)
+		only := only
+		add(&deviant{name: "err-path-prefixed-" + only, mapErr: func(op string, err error) error {
+			if op != only {
+				return err
+			}
+			switch e := err.(type) {
+			case *hackpadfs.PathError:
+				return &hackpadfs.PathError{Op: e.Op, Path: "inner/" + e.Path, Err: e.Err}
+			case *hackpadfs.LinkError:
+				return &hackpadfs.LinkError{Op: e.Op, Old: "inner/" + e.Old, New: "inner/" + e.New, Err: e.Err}
+			}
+			return err
+		}})
+	}
 	add(&deviant{name: "err-path-prefixed", mapErr: func(op string, err error) error {
 		switch e := err.(type) {
 		case *hackpadfs.PathError:
